@@ -6,7 +6,7 @@
 
 package staticfiles
 
-//@ unit serve_file props=C02,C18 filter=`staticfiles\.FileServer\)\.serveFile$`
+//@ unit serve_file frames=on props=C02,C18 filter=`staticfiles\.FileServer\)\.serveFile$`
 //@ spec statOf(f http.File) os.FileInfo
 
 //@ extern invoke:(net/http.File).Stat
